@@ -15,7 +15,7 @@ BOUNDS = {
 }
 STUBS = ["datetime.now not reached (sync_expires=False); an explicit expires instant uses the contract model of datetime (harness/dtmodel.py), email.utils.format_datetime is interpreted", "urllib.parse.quote runs natively on the concrete path"]
 ASSUMPTIONS = ["key is the concrete token 'k'", "a space inside a quoted value is accepted raw (pinned by the suite's test_dump_cookie)"]
-OUTSIDE = ["IDNA domains", "expires derived from max_age and the clock (sync_expires)", "the test client's cookie jar", "values longer than the bound"]
+OUTSIDE = ["IDNA domains", "expires derived from max_age and the clock (sync_expires)", "the test client jar beyond its request matching (storage, expiry)", "values longer than the bound"]
 
 # RFC 6265 cookie-octet
 COOKIE_OCTET = [0x21, (0x23, 0x2B), (0x2D, 0x3A), (0x3C, 0x5B), (0x5D, 0x7E)]
@@ -182,10 +182,38 @@ def obligations(tier, seed):
                 out.append({"name": f"attributes[n={n},samesite={SAMESITE[si]!r},path={PATHS[pi]!r}]", "body": "body_attributes",
                             "params": {"n": n, "samesite_i": si, "path_i": pi},
                             "opts": {"budget_s": 1500}, "witness": si == 2 and pi == 0})
+    for oo in (True, False):
+        for np_, nr in ([(1, 1), (1, 3), (2, 2), (2, 3)] if quick else [(a, b) for a in range(0, 4) for b in range(0, 5)]):
+            out.append({"name": f"jar_match[cookie_path={np_},request_path={nr},origin_only={oo}]", "body": "body_jar_match",
+                        "params": {"np_": np_, "nr": nr, "origin_only": oo}, "opts": {"budget_s": 600, "ctx": {"max_cp": 0x7F}}})
     for month in ([2, 10] if quick else [1, 2, 7, 10, 12]):
         out.append({"name": f"attributes[expires,month={month}]", "body": "body_attributes", "params": {"n": 0, "samesite_i": 1, "path_i": 1, "expires_month": month},
                     "opts": {"budget_s": 1500, "ctx": {"bv_ints": True, "max_digits": 6}}})
     return out
+
+
+def body_jar_match(I, X, np_=2, nr=3, origin_only=True):
+    """the test client's jar sends a cookie back exactly to the requests RFC 6265 path-matches:
+    the request path equals the cookie path, or continues it at a '/' boundary; and only to the
+    cookie's own host (or its subdomains when a Domain was given)"""
+    from werkzeug.test import Cookie
+
+    cp = X.str("cpath", np_, minlen=np_, maxcp=0x7E)
+    rp = X.str("rpath", nr, minlen=nr, maxcp=0x7E)
+    for t in (cp, rp):
+        X.assume(pall_in(t, [0x2F, 0x61, 0x62, 0x2E]))
+    cpath, rpath = pconcat("/", cp), pconcat("/", rp)
+    host = X.choice("host", ["h.example", "sub.h.example", "xh.example", "example"])
+    ck = Cookie(key="k", value="v", decoded_key="k", decoded_value="v", expires=None, max_age=None, domain="h.example", origin_only=origin_only,
+                path=cpath, secure=False, http_only=False, same_site=None)
+    got = bool(I.call(ck._matches_request, (host, rpath)))
+    if bool(pendswith(cpath, "/")):
+        path_ok = pstartswith(rpath, cpath)
+    else:
+        path_ok = por(peq(rpath, cpath), pstartswith(rpath, pconcat(cpath, "/")))
+    host_ok = host == "h.example" or (not origin_only and host == "sub.h.example")
+    exp = bool(pand(path_ok, host_ok))
+    return got == exp, {"got": got, "exp": exp}
 
 
 def make_stubs():
